@@ -5,9 +5,11 @@
 #define NEWCAP_IMPL
 #include "newcap.h"
 using namespace Vector::BLF;
-extern "C" int LLVMFuzzerInitialize(int *, char ***) { g_new_cap = 256u << 20; return 0; }
+// the allocation cap applies only while the library runs (libFuzzer allocates large tables of its own); codec level: a small cap keeps absurd resize() calls cheap
+struct CapScope { CapScope() { g_new_cap = 8u << 20; } ~CapScope() { g_new_cap = 0; } };
 extern "C" int LLVMFuzzerTestOneInput(const uint8_t * data, size_t size) {
     if (size < 1) return 0;
+    CapScope cap;
     ObjectHeaderBase * o = File::createObject((ObjectType)data[0]);
     if (!o) return 0;
     MemFile in; in.buf.assign(data + 1, data + size);
